@@ -59,6 +59,7 @@ func Load(path string) error {
 // Run runs harness f natively under the loaded replay and reports whether an
 // assertion failed (and which).
 func Run(f func()) (failed []string, mismatch []string, panicked interface{}) {
+	baselineGoroutines()
 	func() {
 		defer func() {
 			if r := recover(); r != nil {
@@ -281,3 +282,11 @@ func FillRandom(p []byte) {
 
 // SymbolicRand makes the random source return fresh symbolic bytes.
 func SymbolicRand(on bool) {}
+
+// Quiesce lets every other goroutine run until none can make progress
+// (symgo: explored over all schedules; natively: a short sleep).
+func Quiesce() { quiesceNative() }
+
+// LiveGoroutines returns how many goroutines started by the harness have not
+// finished (symgo only; natively -1 = unknown).
+func LiveGoroutines() int { return liveNative() }
